@@ -1,18 +1,23 @@
 import Bee2V.C07.Drv
+import Bee2V.C07.DrvBlob
 open Bee2V.C07.Drv
 
-partial def loop (hin hout : IO.FS.Stream) (w32 : Bool) : IO Unit := do
+/-- `cfg W64` / `cfg W32`: word size of the hooked builds (BLOB_PAGE_SIZE 1); `cfg PLAIN`: the shipped
+page-rounded configuration (BLOB_PAGE_SIZE 1024, 64-bit words) -/
+partial def loop (hin hout : IO.FS.Stream) (w32 : Bool) (page : Nat) : IO Unit := do
   let line ← hin.getLine
   if line.isEmpty then return ()
   let toks := line.trimAscii.toString.splitOn " "
   match toks with
-  | ["cfg", "W32"] => hout.putStrLn "cfg"; loop hin hout true
-  | ["cfg", "W64"] => hout.putStrLn "cfg"; loop hin hout false
-  | _ => hout.putStrLn (handle w32 toks); loop hin hout w32
+  | ["cfg", "W32"] => hout.putStrLn "cfg"; loop hin hout true 1
+  | ["cfg", "W64"] => hout.putStrLn "cfg"; loop hin hout false 1
+  | ["cfg", "PLAIN"] => hout.putStrLn "cfg"; loop hin hout false 1024
+  | "blob" :: rest => hout.putStrLn (Bee2V.C07.DrvBlob.handle page rest); loop hin hout w32 page
+  | _ => hout.putStrLn (handle w32 toks); loop hin hout w32 page
 
 /-- driver executable of area C07 (`drv_c07`) -/
 def main : IO Unit := do
   let hin ← IO.getStdin
   let hout ← IO.getStdout
-  loop hin hout false
+  loop hin hout false 1
   hout.flush
